@@ -12,7 +12,11 @@ From GoSse.Gen Require Import Params.
 From Coq Require Import ZifyN ZifyNat ZifyBool.
 Local Open Scope nat_scope.
 
-Definition sc_inv2 (B : N) (s : scanner) : Prop := B = N.max (sc_cap s) (sc_max s).
+(* B is the largest size the buffer can take; once the reader has ended (the end was delivered by a Read call,
+   which needs room) the buffer is not full *)
+Definition sc_inv2 (B : N) (s : scanner) : Prop :=
+  B = N.max (sc_cap s) (sc_max s) /\
+  (sc_err s <> None -> (sc_start s + N.of_nat (length (sc_data s)) < sc_cap s)%N).
 
 (* [R]: the unconsumed input, [e]: the reader's ending, [noerr]: the scanner had no error when Scan was called *)
 Definition scan_post2' (B : N) (st : split_state) (R : bytes) (e : ending) (noerr : Prop)
@@ -23,7 +27,7 @@ Definition scan_post2' (B : N) (st : split_state) (R : bytes) (e : ending) (noer
   | ScanTrue =>
       sc_inv B s' r' /\ sc_inv2 B s' /\
       exists n eof adv tok nls,
-        n <= length R /\ (N.of_nat n <= B)%N /\ (eof = true -> n = length R) /\
+        n <= length R /\ (N.of_nat n <= B)%N /\ (eof = true -> n = length R /\ (N.of_nat n < B)%N) /\
         split_func (firstn n R) eof = SplitTok adv tok /\
         sc_token s' = Some tok /\ rest_of s' r' = skipn adv R /\
         firstn adv R = nls ++ tok /\ all_nl nls /\ headok tok /\ 0 < adv <= n /\
@@ -33,17 +37,18 @@ Definition scan_post2' (B : N) (st : split_state) (R : bytes) (e : ending) (noer
       st' = st /\
       ((noerr /\ sc_err s' = Some ETooLong /\ length (firstn (N.to_nat B) R) = N.to_nat B /\
         (firstn (N.to_nat B) R = [] \/ split_func (firstn (N.to_nat B) R) false = SplitMore))
-       \/ (R = [] /\ sc_err s' = Some (end_serr e) /\ rest_of s' r' = []))
+       \/ (R = [] /\ sc_err s' = Some (end_serr e) /\ rest_of s' r' = [] /\ (noerr -> (0 < B)%N)))
   | ScanPanic | ScanOutOfFuel => False
   end.
 
 Definition scan_post2 (B : N) (st : split_state) (s : scanner) (r : reader) res : Prop :=
   scan_post2' B st (rest_of s r) (rd_ending r) (sc_err s = None) res.
 
-Lemma post2_weaken B st R e (P Q : Prop) res : (P -> Q) -> scan_post2' B st R e P res -> scan_post2' B st R e Q res.
+Lemma post2_weaken B st R e (P Q : Prop) res :
+  (P -> Q) -> (0 < B)%N -> scan_post2' B st R e P res -> scan_post2' B st R e Q res.
 Proof.
-  destruct res as [[[out st'] s'] r']. unfold scan_post2'. intros HPQ [He H]. split; [exact He|].
-  destruct out; try exact H. destruct H as [Hst [(HP & H1)|H2]]; split; try exact Hst; [left|right]; tauto.
+  destruct res as [[[out st'] s'] r']. unfold scan_post2'. intros HPQ HB [He H]. split; [exact He|].
+  destruct out; try exact H. destruct H as [Hst [(HP & H1)|(H2 & H3 & H4 & _)]]; split; try exact Hst; [left|right]; tauto.
 Qed.
 
 Lemma firstn_app_len {A} (l1 l2 : list A) : firstn (length l1) (l1 ++ l2) = l1.
@@ -62,11 +67,12 @@ Definition scan_ih2 (B : N) (fuel : nat) : Prop :=
 Lemma read_tail_spec2 B fuel (IH : scan_ih2 B fuel) st s r s3 :
   sc_inv B s r -> sc_err s = None -> rd_rest r + 2 <= S fuel ->
   sc_data s3 = sc_data s -> sc_err s3 = None -> sc_done s3 = false -> sc_off s3 = sc_off s -> sc_max s3 = sc_max s ->
-  (sc_start s3 + N.of_nat (length (sc_data s)) < sc_cap s3)%N -> (sc_cap s3 <= B)%N -> sc_inv2 B s3 ->
+  (sc_start s3 + N.of_nat (length (sc_data s)) < sc_cap s3)%N -> (sc_cap s3 <= B)%N -> B = N.max (sc_cap s3) (sc_max s3) ->
   scan_post2 B st s r (read_tail fuel st s3 r).
 Proof.
   intros (Hdone & Hwf & Hcap & Hmax & Hoff & Herr) He Hfuel Zd Ze Zdn Zo Zm Zwf Zcap Zi2.
   unfold read_tail.
+  assert (HB0 : (0 < B)%N) by lia.
   assert (Hn : (0 < sc_cap s3 - sc_end s3)%N) by (unfold sc_end; rewrite Zd; lia).
   pose proof (rd_read_spec r (sc_cap s3 - sc_end s3)%N Hn) as Hrd.
   destruct (rd_read r (sc_cap s3 - sc_end s3)%N) as [[bs err] r'].
@@ -83,12 +89,13 @@ Proof.
     assert (Hinv5 : sc_inv B s5 r').
     { unfold sc_inv. rewrite Vd, Ve, Vm, Vdn, Vo, Vs, Vc, Hend, Hp, Hc'. repeat split; try assumption; try lia.
       right. split; reflexivity. }
-    assert (Hi25 : sc_inv2 B s5) by (unfold sc_inv2 in *; rewrite Vc, Vm, <- Zm; exact Zi2).
+    assert (Hi25 : sc_inv2 B s5).
+    { unfold sc_inv2. rewrite Vc, Vm, Vs, Vd, <- Zm. split; [exact Zi2|]. intros _. exact Zwf. }
     assert (Hf5 : fuel_needed s5 r' <= fuel) by (unfold fuel_needed; rewrite Ve; lia).
     pose proof (IH st s5 r' Hinv5 Hi25 Hf5) as Hpost.
     assert (Hrest : rest_of s5 r' = rest_of s r) by (unfold rest_of; now rewrite Vd, Hc', Hc).
     unfold scan_post2 in *. rewrite Hrest, Hend in Hpost.
-    eapply post2_weaken; [|exact Hpost]. intros _. exact He.
+    eapply post2_weaken; [|exact HB0|exact Hpost]. intros _. exact He.
   - destruct Hrd as (Hne & Hcat & Hlen & Hp).
     set (s5 := mksc _ _ _ _ _ _ _ _ _).
     assert (H5 : sc_data s5 = sc_data s ++ bs /\ sc_err s5 = None /\ sc_max s5 = sc_max s /\
@@ -99,14 +106,15 @@ Proof.
     assert (Hinv5 : sc_inv B s5 r').
     { unfold sc_inv. rewrite Vd, Ve, Vm, Vdn, Vo, Vs, Vc, Hp, app_length.
       unfold sc_end in Hlen. rewrite Zd in Hlen. repeat split; try assumption; try lia. left; reflexivity. }
-    assert (Hi25 : sc_inv2 B s5) by (unfold sc_inv2 in *; rewrite Vc, Vm, <- Zm; exact Zi2).
+    assert (Hi25 : sc_inv2 B s5).
+    { unfold sc_inv2. rewrite Vc, Vm, Ve, <- Zm. split; [exact Zi2|]. intros Hx. congruence. }
     assert (Hrr : rd_rest r' < rd_rest r).
     { unfold rd_rest. rewrite <- Hcat, app_length. destruct bs; [congruence|cbn [length]; lia]. }
     assert (Hf5 : fuel_needed s5 r' <= fuel) by (unfold fuel_needed; rewrite Ve; lia).
     pose proof (IH st s5 r' Hinv5 Hi25 Hf5) as Hpost.
     assert (Hrest : rest_of s5 r' = rest_of s r) by (unfold rest_of; now rewrite Vd, <- app_assoc, Hcat).
     unfold scan_post2 in *. rewrite Hrest, Hend in Hpost.
-    eapply post2_weaken; [|exact Hpost]. intros _. exact He.
+    eapply post2_weaken; [|exact HB0|exact Hpost]. intros _. exact He.
 Qed.
 
 (* no token was cut: [sx] is [s] up to the token field *)
@@ -118,7 +126,7 @@ Lemma after_split_spec2 B fuel (IH : scan_ih2 B fuel) st s r sx :
   (sc_err s = None -> sc_data s = [] \/ split_func (sc_data s) false = SplitMore) ->
   scan_post2 B st s r (after_split fuel st sx r).
 Proof.
-  intros Hinv Hi2 Hfuel (Xd & Xs & Xc & Xm & Xe & Xdn & Xo) Hempty Hmore.
+  intros Hinv [Hi2 Hi2b] Hfuel (Xd & Xs & Xc & Xm & Xe & Xdn & Xo) Hempty Hmore.
   pose proof Hinv as (Hdone & Hwf & Hcap & Hmax & Hoff & Herr).
   unfold after_split. rewrite Xe.
   destruct (sc_err s) as [e|] eqn:Ee; cbn [is_some].
@@ -127,7 +135,7 @@ Proof.
     pose proof (Hempty e eq_refl) as Hd.
     unfold scan_post2, scan_post2'. unfold sc_with_buf. cbn [sc_max sc_data sc_err sc_off rest_of].
     split; [reflexivity|]. split; [reflexivity|].
-    right. unfold rest_of. cbn [sc_data]. rewrite Hd, Hc, Xe. repeat split. exact He.
+    right. unfold rest_of. cbn [sc_data]. rewrite Hd, Hc, Xe. repeat split; [exact He|]. intros Hx. rewrite Ee in Hx. discriminate.
   - unfold fuel_needed in Hfuel. rewrite Ee in Hfuel.
     set (s2 := if (0 <? sc_start sx)%N && ((sc_end sx =? sc_cap sx)%N || (sc_cap sx / 2 <? sc_start sx)%N)
                then sc_with_buf sx (sc_data sx) 0%N (sc_cap sx) else sx).
@@ -153,7 +161,7 @@ Proof.
         unfold scan_post2, scan_post2'. unfold sc_set_err. rewrite Ye.
         cbn [sc_max sc_data sc_err sc_off].
         split; [reflexivity|]. split; [reflexivity|]. left.
-        assert (HB : N.to_nat B = length (sc_data s)) by (unfold sc_inv2 in Hi2; lia).
+        assert (HB : N.to_nat B = length (sc_data s)) by lia.
         assert (Hfn : firstn (N.to_nat B) (rest_of s r) = sc_data s).
         { unfold rest_of. rewrite HB. apply firstn_app_len. }
         rewrite Hfn. split; [exact Ee|]. split; [reflexivity|]. split; [lia|]. apply Hmore. reflexivity.
@@ -164,9 +172,9 @@ Proof.
         { unfold ns. rewrite Yc, Ym. change start_buf_size with 4096%N.
           destruct (sc_cap s * 2 =? 0)%N eqn:E0; [apply N.eqb_eq in E0|apply N.eqb_neq in E0]; lia. }
         apply (read_tail_spec2 B fuel IH st s r (sc_with_buf s2 (sc_data s2) 0%N ns) Hinv Ee Hfuel);
-          unfold sc_with_buf, sc_inv2 in *; cbn [sc_data sc_err sc_done sc_off sc_max sc_start sc_cap]; try assumption; lia.
+          unfold sc_with_buf in *; cbn [sc_data sc_err sc_done sc_off sc_max sc_start sc_cap]; try assumption; lia.
     + apply N.eqb_neq in Efull. unfold sc_end in Efull. rewrite Yd, Yc in Efull.
-      apply (read_tail_spec2 B fuel IH st s r s2 Hinv Ee Hfuel); try assumption; unfold sc_inv2 in *; rewrite ?Yc, ?Ym; lia.
+      apply (read_tail_spec2 B fuel IH st s r s2 Hinv Ee Hfuel); try assumption; rewrite ?Yc, ?Ym; lia.
 Qed.
 
 Theorem scan_loop_spec2 B fuel : forall st s r,
@@ -176,6 +184,7 @@ Proof.
   induction fuel as [|fuel IH]; intros st s r Hinv Hi2 Hfuel.
   { unfold fuel_needed in Hfuel. destruct (sc_err s); lia. }
   pose proof Hinv as (Hdone & Hwf & Hcap & Hmax & Hoff & Herr).
+  pose proof Hi2 as [Hi2a Hi2b].
   rewrite scan_loop_S.
   destruct (negb (match sc_data s with [] => true | _ => false end) || is_some (sc_err s)) eqn:Et.
   - pose proof (parser_split_spec st (sc_data s) (is_some (sc_err s))) as Hsp.
@@ -191,14 +200,17 @@ Proof.
       split.
       { unfold sc_inv. cbn [sc_max sc_token sc_data sc_start sc_cap sc_err sc_done sc_off].
         rewrite Hlen. repeat split; try assumption; lia. }
-      split; [exact Hi2|].
+      split.
+      { unfold sc_inv2. cbn [sc_max sc_token sc_data sc_start sc_cap sc_err sc_done sc_off].
+        split; [exact Hi2a|]. intros Hx. specialize (Hi2b Hx). rewrite Hlen. lia. }
       exists (length (sc_data s)), (is_some (sc_err s)), adv, t, nls.
       assert (Hfd : firstn (length (sc_data s)) (rest_of s r) = sc_data s) by apply firstn_app_len.
       rewrite Hfd.
       assert (HlR : length (rest_of s r) = length (sc_data s) + length (concat (rd_chunks r))) by apply app_length.
       split; [lia|]. split; [lia|]. split.
       { intros Heof. destruct (sc_err s) as [e|]; [|discriminate].
-        destruct Herr as [Hc|[_ Hc]]; [discriminate|]. rewrite Hc in HlR. cbn [length] in HlR. lia. }
+        destruct Herr as [Hc|[_ Hc]]; [discriminate|]. rewrite Hc in HlR. cbn [length] in HlR.
+        specialize (Hi2b ltac:(discriminate)). split; lia. }
       split; [exact Hsf|]. split; [reflexivity|].
       assert (Hrest' : rest_of (mksc (skipn adv (sc_data s)) (sc_start s + N.of_nat adv) (sc_cap s) (sc_max s) (sc_err s)
                                   (sc_done s) 0 (Some t) (sc_off s + N.of_nat adv)) r = skipn adv (rest_of s r)).
